@@ -97,7 +97,7 @@ type counters struct {
 
 func (c *counters) inc(k string) { c.calls[k].Add(1) }
 
-var apiNames = []string{"site.graceExpiredAfterUnlock", "site.reconnectEntry", "IsLeader", "LeaderID", "Token", "Status", "ValidateToken", "ValidateTokenOrDemote", "OnPromote", "OnDemote", "Start", "Stop", "StopWithContext", "conn.D", "conn.R", "conn.C", "conn.D.late", "conn.R.late", "conn.C.late", "outside"}
+var apiNames = []string{"site.graceExpiredAfterUnlock", "site.reconnectEntry", "IsLeader", "LeaderID", "Token", "Status", "Status.leading", "ValidateToken", "ValidateTokenOrDemote", "OnPromote", "OnDemote", "Start", "Stop", "StopWithContext", "conn.D", "conn.R", "conn.C", "conn.D.late", "conn.R.late", "conn.C.late", "outside"}
 
 func TestBatch(t *testing.T) {
 	outPath := os.Getenv("VERIF_OUT")
@@ -185,6 +185,12 @@ func runScenario(t *testing.T, r *rand.Rand, res *h.Result) {
 			wg.Add(1)
 			go func() {
 				defer wg.Done()
+				// what this poller has learnt from its own sequence of snapshots: the token it last
+				// saw in a leading snapshot, and the tokens of terms it knows to be over (it saw a
+				// non-leading snapshot, or another token, afterwards). Tokens are unique per term:
+				// a leading snapshot never shows the token of a term that is over.
+				lastLead := ""
+				over := map[string]bool{}
 				for {
 					select {
 					case <-stop:
@@ -207,6 +213,22 @@ func runScenario(t *testing.T, r *rand.Rand, res *h.Result) {
 					}
 					if st.IsLeader && st.LeaderID != name {
 						viol("C18", "poller-leaderid", "poller:leader-snapshot-leaderid", fmt.Sprintf("%s leader snapshot LeaderID=%q", name, st.LeaderID))
+					}
+					if st.IsLeader {
+						if st.Token == "" {
+							viol("C05", "poller-token", "poller:leading-snapshot-without-token", fmt.Sprintf("%s Status() under load: IsLeader=true Token=\"\"", name))
+							viol("C18", "poller-token", "poller:leading-snapshot-without-token", fmt.Sprintf("%s Status() under load: IsLeader=true Token=\"\"", name))
+						} else if over[st.Token] {
+							viol("C05", "poller-token", "poller:leading-snapshot-with-token-of-ended-term", fmt.Sprintf("%s Status() under load: IsLeader=true with token %s, which this poller had already seen superseded", name, st.Token))
+							viol("C18", "poller-token", "poller:leading-snapshot-with-token-of-ended-term", fmt.Sprintf("%s Status() under load: IsLeader=true with token %s, which this poller had already seen superseded", name, st.Token))
+						}
+						if lastLead != "" && lastLead != st.Token {
+							over[lastLead] = true
+						}
+						lastLead = st.Token
+						cnt.inc("Status.leading")
+					} else if lastLead != "" {
+						over[lastLead] = true
 					}
 					time.Sleep(50 * time.Microsecond)
 				}
